@@ -241,6 +241,8 @@ def verdict_part(chk, quick):
             if not quick or perm[0] <= perm[-1]:
                 # the same order imposed through file names (files are read in sorted order)
                 jobs.append((name, "files:" + ",".join(perm), {"f%02d.yml" % i: chunks[n] for i, n in enumerate(perm)}))
+        jobs.append((name, "documents:" + ",".join(names), {"model.yml": "\n---\n".join(chunks[n] for n in names) + "\n"}))
+        jobs.append((name, "documents-reversed:" + ",".join(names), {"model.yml": "---\n" + "\n---\n".join(chunks[n] for n in reversed(names)) + "\n"}))
         half = len(names) // 2
         for a in itertools.combinations(names, half):
             rest = [n for n in names if n not in a]
@@ -305,6 +307,15 @@ def literal_pairs():
         ("vector-length-2^64+1-hex", rec("    a: int*0x10000000000000001\n"), rec("    a: !vector {items: int, length: 0x10000000000000001}\n")),
         ("array-length-2^64+1", rec("    a: int[18446744073709551617]\n"), rec("    a: !array {items: int, dimensions: [18446744073709551617]}\n")),
         ("array-length-2^64+1-named", rec("    a: int[x:18446744073709551617]\n"), rec("    a: !array {items: int, dimensions: {x: 18446744073709551617}}\n")),
+        # literals with a leading zero: whatever they mean, they mean it in both spellings
+        ("array-length-leading-zero", rec("    a: int[017]\n"), rec("    a: !array {items: int, dimensions: [017]}\n")),
+        ("vector-length-leading-zero", rec("    a: int*017\n"), rec("    a: !vector {items: int, length: 017}\n")),
+        ("array-length-leading-zero-named", rec("    a: int[x:017, y:010]\n"), rec("    a: !array {items: int, dimensions: {x: 017, y: 010}}\n")),
+        ("array-length-binary", rec("    a: int[0b101]\n"), rec("    a: !array {items: int, dimensions: [0b101]}\n")),
+        ("vector-length-octal", rec("    a: int*0o17\n"), rec("    a: !vector {items: int, length: 0o17}\n")),
+        ("enum-values-list-vs-map", "E: !enum\n  values: [a, b]\n" + rec("    a: E\n"), "E: !enum\n  values: {a: 0, b: 1}\n" + rec("    a: E\n")),
+        ("enum-values-bool-like-symbols", "E: !enum\n  values: [false, true]\n" + rec("    a: E\n"), "E: !enum\n  values: {false: 0, true: 1}\n" + rec("    a: E\n")),
+        ("enum-values-null-like-symbols", "E: !enum\n  values: [yes, no]\n" + rec("    a: E\n"), "E: !enum\n  values: {yes: 0, no: 1}\n" + rec("    a: E\n")),
         ("vector-length-negative", rec("    a: int*-1\n"), rec("    a: !vector {items: int, length: -1}\n")),
         ("type-in-single-quotes", rec("    a: int?\n"), rec("    a: 'int?'\n")),
         ("type-as-block-scalar", rec("    a: int?\n"), rec("    a: |-\n      int?\n")),
@@ -446,6 +457,10 @@ def main(tier):
         jobs.append(("order", "three-files-with-subdir", pi, {"z.yml": model_text(pkg, order=names[::3])[0], "m.yaml": model_text(pkg, order=names[1::3])[0],
                                                             "sub/a.yml": model_text(pkg, order=names[2::3])[0]}))
         jobs.append(("order", "one-file-per-definition", pi, {"d%03d.yml" % i: chunks[n] for i, n in enumerate(reversed(names))}))
+        # one file, several YAML documents (`---` between definitions): the same definitions, differently distributed
+        jobs.append(("order", "one-document-per-definition", pi, {"model.yml": "\n---\n".join(chunks[n] for n in names) + "\n"}))
+        jobs.append(("order", "two-documents", pi, {"model.yml": "---\n" + model_text(pkg, order=names[:half])[0] + "\n---\n" + model_text(pkg, order=names[half:])[0] + "\n"}))
+        jobs.append(("order", "documents-and-files", pi, {"a.yml": "\n---\n".join(chunks[n] for n in names[:half]) + "\n...\n", "b.yml": "# leading comment\n---\n" + "\n---\n".join(chunks[n] for n in names[half:]) + "\n"}))
 
     def run(job):
         kind, label, pi, mf = job
